@@ -52,3 +52,9 @@ Example C15_nonvacuous_netrpc :
   snd (rrun true w0 [RStart true; RCancel 0; RSet 0 5; RGet 0] [1; 0; 0; -1]%Z) = [1; 0; 0; -1]%Z /\
   snd (rrun false w0 [RStart true; RCancel 0; RSet 0 5; RGet 0] [1; 0; 1; 5]%Z) = [1; 0; 0; -1]%Z.
 Proof. vm_compute. repeat split; reflexivity. Qed.
+
+(* a failed attach is not turned into an attached client by calling Start again: the error comes back every time and the
+   world is untouched *)
+Theorem C15_failed_attach_stays_failed : forall net w c x h,
+  nth_error (cls w) c = Some x -> c_conn x = false -> rstep net w (RAgain c) h = (w, 0%Z).
+Proof. exact failed_attach_stays_failed. Qed.
